@@ -10,6 +10,10 @@ TEST_FLAGS = {"exists": "-e", "is_dir": "-d", "is_executable": "-x", "is_file": 
 ASCII_WS = " \t\n\r\x0b\x0c\x1c\x1d\x1e\x1f"
 
 
+class _Loops(Exception):
+    pass
+
+
 def name(rng, nl=None):
     if nl is None:
         nl = rng.random() < 0.12       # names with newlines make the remote walk hang (known): keep them rare
@@ -22,7 +26,7 @@ class C24(Prop):
     PROPS_FILE = "Props/C24.v"
     CORR_MODULE = "RPath.Corr"
     MAX_WORKERS = 8
-    CASE_TIMEOUT = 60
+    CASE_TIMEOUT = 900
     SHARD_TIMEOUT = 1500
     LEVEL_TEXT = (
         "Theorems (Coq, closed): for every path string and every operation of RemoteStreamFlowPath whose command is "
@@ -46,7 +50,7 @@ class C24(Prop):
 
     # ------------------------------------------------------------------ generation
     def gen(self, rng, tier):
-        k = {"quick": 1, "thorough": 6, "extended": 3}[tier]
+        k = {"quick": 1, "thorough": 5, "extended": 2}[tier]
         cases = []
         ops = list(TEST_FLAGS) + ["checksum", "resolve", "chmod", "mkdir", "read_text", "rmtree", "symlink_to", "hardlink_to",
                                   "size", "glob", "walk", "write_text"]
@@ -68,7 +72,7 @@ class C24(Prop):
             if c["op"] == "walk":
                 c["follow"], c["which"] = rng.random() < 0.3, rng.randrange(2)
             cases.append(c)
-        for _ in range({"quick": 40, "thorough": 300, "extended": 80}[tier]):
+        for _ in range({"quick": 40, "thorough": 160, "extended": 60}[tier]):
             content = rng.choice(["", "x", "hello\n", "two\nlines", hostile(rng, 8), " lead", "trail \n\n", "\ttab\t"])
             cases.append({"f": "fs", "d": name(rng), "file": name(rng), "link": name(rng), "hard": name(rng), "sub": name(rng),
                           "content": content})
@@ -179,82 +183,157 @@ class C24(Prop):
                         out.append([rel, "f", fh.read().hex() + ":%o:%d" % (stat.S_IMODE(st.st_mode), st.st_nlink)])
         return sorted(out)
 
+    def _steps(self, c):
+        """The scenario: (label, function of the path set and the root) — the same list drives both sides."""
+        async def g(p, root):
+            return sorted([str(x) async for x in p["d"].glob("*")])
+
+        async def w(p, root):
+            # non-termination is detected structurally, not by a clock: the tree has at most 3 directories, so a
+            # walk that yields 100 times is going round in circles
+            out = []
+            async for a, b, x in p["d"].walk():
+                out.append([str(a), sorted(b), sorted(x)])
+                if len(out) >= 100:
+                    raise _Loops()
+            return sorted(out)
+        st = [("mkdir", lambda p, r: p["d"].mkdir(mode=0o755, parents=True, exist_ok=True)),
+              ("mkdir-sub", lambda p, r: p["s"].mkdir(mode=0o755)),
+              ("write", lambda p, r: p["f"].write_text(c["content"])),
+              ("read", lambda p, r: p["f"].read_text()),
+              ("size", lambda p, r: p["f"].size()),
+              ("checksum", lambda p, r: p["f"].checksum()),
+              ("exists", lambda p, r: p["f"].exists()),
+              ("is_file", lambda p, r: p["f"].is_file()),
+              ("is_dir", lambda p, r: p["d"].is_dir()),
+              ("exists-missing", lambda p, r: p["m"].exists())]
+        if c["link"] not in (c["file"], c["sub"]):
+            st += [("symlink", lambda p, r: p["l"].symlink_to(os.path.join(r, c["d"], c["file"]))),
+                   ("is_symlink", lambda p, r: p["l"].is_symlink()),
+                   ("resolve", lambda p, r: p["l"].resolve())]
+        if c["hard"] not in (c["file"], c["sub"], c["link"]):
+            st += [("hardlink", lambda p, r: p["h"].hardlink_to(os.path.join(r, c["d"], c["file"])))]
+        st += [("chmod", lambda p, r: p["f"].chmod(0o750)),
+               ("is_executable", lambda p, r: p["f"].is_executable()),
+               ("glob", g), ("walk", w),
+               ("rmtree", lambda p, r: p["s"].rmtree()),
+               ("exists-sub", lambda p, r: p["s"].exists())]
+        return st
+
+    def _paths(self, c, root, local):
+        loc = self.Loc(name="x", deployment="remote", local=local)
+        P = lambda *a: self.SFP(root, *a, context=self.ctx, location=loc)
+        return {"d": P(c["d"]), "f": P(c["d"], c["file"]), "l": P(c["d"], c["link"]), "h": P(c["d"], c["hard"]),
+                "s": P(c["d"], c["sub"]), "m": P(c["d"], c["file"] + "-missing")}
+
+    async def _step(self, fn, paths, root, timeout):
+        def norm(v):
+            if isinstance(v, str):
+                return v.replace(root, "<R>")
+            if isinstance(v, (list, tuple)):
+                return [norm(x) for x in v]
+            if hasattr(v, "__fspath__"):
+                return str(v).replace(root, "<R>")
+            return v
+        try:
+            v = await self.asyncio.wait_for(fn(paths, root), timeout)
+            return ["ok", norm(v)]
+        except _Loops:
+            return ["hang", ""]
+        except self.asyncio.TimeoutError:
+            return ["no-answer-in-500s", ""]
+        except Exception:  # noqa  (which exception class each side raises is not compared)
+            return ["err", ""]
+
+    def _strays(self, base):
+        known_top = {f"t{i}" for i in range(1, self.n + 1)} | {"home"}
+        out = sorted(x for x in os.listdir(os.path.join(base, "remote")) if x != "root") \
+            + sorted(x for x in os.listdir(self.scratch) if x not in known_top) \
+            + sorted(os.listdir(os.path.join(self.scratch, "home")))
+        for dd, keep in ((self.scratch, known_top), (os.path.join(self.scratch, "home"), set()),
+                         (os.path.join(base, "remote"), {"root"})):
+            for x in os.listdir(dd):
+                if x not in keep:
+                    fp = os.path.join(dd, x)
+                    shutil.rmtree(fp, True) if os.path.isdir(fp) and not os.path.islink(fp) else os.unlink(fp)
+        return out
+
     async def _fs(self, c):
+        """Runs the scenario step by step on twin trees (remote = shell commands, local = filesystem API).  After
+        every step results and trees are compared; when the trees have diverged the remote tree is rebuilt by
+        replaying the steps so far with the local implementation, so that every step is judged on equal trees and
+        one scenario reports every step that differs, not only the first."""
         self.n += 1
         base = os.path.join(self.scratch, f"t{self.n}")
-        res = {}
-        for side in ("remote", "local"):
-            root = os.path.join(base, side, "root")
-            os.makedirs(root)
-            loc = self.Loc(name="x", deployment="remote", local=(side == "local"))
-            P = lambda *a: self.SFP(root, *a, context=self.ctx, location=loc)
-            steps = []
-
-            async def do(label, coro_fn):
-                try:
-                    v = await coro_fn()
-                    if hasattr(v, "__fspath__") or type(v).__name__.endswith("StreamFlowPath"):
-                        v = str(v)
-                    steps.append([label, "ok", v if not isinstance(v, str) else v.replace(root, "<R>")])
-                except Exception as e:  # noqa
-                    steps.append([label, "err", ""])
-
-            d, f, l, h, s = P(c["d"]), P(c["d"], c["file"]), P(c["d"], c["link"]), P(c["d"], c["hard"]), P(c["d"], c["sub"])
-            await do("mkdir", lambda: d.mkdir(mode=0o755, parents=True, exist_ok=True))
-            await do("mkdir-sub", lambda: s.mkdir(mode=0o755))
-            await do("write", lambda: f.write_text(c["content"]))
-            await do("read", lambda: f.read_text())
-            await do("size", lambda: f.size())
-            await do("checksum", lambda: f.checksum())
-            await do("exists", lambda: f.exists())
-            await do("is_file", lambda: f.is_file())
-            await do("is_dir", lambda: d.is_dir())
-            await do("exists-missing", lambda: P(c["d"], c["file"] + "-missing").exists())
-            if c["link"] not in (c["file"], c["sub"]):
-                await do("symlink", lambda: l.symlink_to(str(f)))
-                await do("is_symlink", lambda: l.is_symlink())
-                await do("resolve", lambda: l.resolve())
-            if c["hard"] not in (c["file"], c["sub"], c["link"]):
-                await do("hardlink", lambda: h.hardlink_to(str(f)))
-            await do("chmod", lambda: f.chmod(0o750))
-            await do("is_executable", lambda: f.is_executable())
-
-            async def g():
-                return sorted([str(x).replace(root, "<R>") async for x in d.glob("*")])
-
-            async def w():
-                return sorted([[str(a).replace(root, "<R>"), sorted(b), sorted(x)] async for a, b, x in d.walk()])
-            await do("glob", g)
-            await do("walk", w)
-            await do("rmtree", lambda: s.rmtree())
-            await do("exists-sub", lambda: s.exists())
-            res[side] = {"steps": steps, "tree": self._snap(root)}
-        others = sorted(x for x in os.listdir(os.path.join(base, "remote")) if x != "root")
-        known_top = {f"t{i}" for i in range(1, self.n + 1)} | {"home"}
-        res["stray"] = others + sorted(x for x in os.listdir(self.scratch) if x not in known_top) \
-            + sorted(os.listdir(os.path.join(self.scratch, "home")))
-        for x in os.listdir(self.scratch):          # do not let strays of one case be blamed on the next
-            if x not in known_top:
-                fp = os.path.join(self.scratch, x)
-                shutil.rmtree(fp, True) if os.path.isdir(fp) and not os.path.islink(fp) else os.unlink(fp)
-        return res
+        rroot, lroot = os.path.join(base, "remote", "root"), os.path.join(base, "local", "root")
+        os.makedirs(rroot)
+        os.makedirs(lroot)
+        steps = self._steps(c)
+        rp, lp = self._paths(c, rroot, False), self._paths(c, lroot, True)
+        diffs = []
+        for i, (label, fn) in enumerate(steps):
+            rv = await self._step(fn, rp, rroot, 500)
+            lv = await self._step(fn, lp, lroot, 500)
+            if rv != lv:
+                diffs.append([label, "result", rv, lv])
+            stray = self._strays(base)
+            if stray:
+                diffs.append([label, "stray", stray[:5], []])
+            rt, lt = self._snap(rroot), self._snap(lroot)
+            if rt != lt:
+                diffs.append([label, "tree", [x for x in rt if x not in lt][:3], [x for x in lt if x not in rt][:3]])
+                shutil.rmtree(rroot, True)
+                os.makedirs(rroot)
+                xp = self._paths(c, rroot, True)
+                for _, fn2 in steps[:i + 1]:
+                    await self._step(fn2, xp, rroot, 500)
+                if self._snap(rroot) != lt:
+                    diffs.append([label, "resync", "", ""])
+                    break
+        return {"diffs": diffs, "nsteps": len(steps)}
 
     # ------------------------------------------------------------------ oracle: remote == local
+    def _cls(self, c, d):
+        """input class of one difference [label, kind, remote, local]"""
+        label, kind, rv, lv = d
+        names = c["d"] + c["file"] + c["link"] + c["hard"] + c["sub"]
+        ws = any(ch.isspace() for ch in names)
+        if kind == "result" and rv and rv[0] == "hang":
+            return "hang-whitespace-only-name" if label == "walk" and any(n.strip(" \n") == "" for n in (c["d"], c["sub"])) \
+                else "hang"
+        if kind == "result" and label == "read":
+            return "ws-content" if c["content"].strip() != c["content"] else "cr-content" if "\r" in c["content"] else "other"
+        if kind == "result" and label == "checksum" and c["file"] == c["sub"]:
+            return "target-is-directory"
+        if kind == "result" and label == "checksum":
+            return "escaped-name" if any(ch in c["d"] + c["file"] for ch in "\\\n\r") else "other"
+        if kind == "result" and label == "write":
+            return "target-is-directory" if c["file"] == c["sub"] else "other"
+        if kind == "result" and label == "walk":
+            if rv[0] == "ok" and lv[0] == "ok" and [[a, b, [x for x in f if x != c["link"]]] for a, b, f in lv[1]] == rv[1]:
+                return "symlink-omitted"
+            return "newline-name" if ("\n" in names or "\r" in names) else "whitespace-name" if ws else "other"
+        return "whitespace-name" if ws else "other"
+
+    def _known(self):
+        if not hasattr(self, "_known_sigs"):
+            from harness.lib.framework import load_known
+            self._known_sigs = {k[0] for k in load_known(self.ID)[0]}
+        return self._known_sigs
+
     def oracle(self, c, o):
         if "crash" in o or "hang" in o:
             return ("crash", f"implementation crashed/hung: {str(o)[:300]}")
-        if c["f"] != "fs":
+        if c["f"] != "fs" or not o.get("diffs"):
             return None
-        r, l = o["remote"], o["local"]
-        for a, b in zip(r["steps"], l["steps"]):
-            if a != b:
-                return ("result-" + a[0], f"{a[0]}: remote {a[1:]} local {b[1:]} (dir {c['d']!r} file {c['file']!r})")
-        if o.get("stray"):
-            return ("tree", f"files outside the tree appeared on the remote side: {o['stray']}")
-        if r["tree"] != l["tree"]:
-            diff = [x for x in r["tree"] if x not in l["tree"]][:2] + [x for x in l["tree"] if x not in r["tree"]][:2]
-            return ("tree", f"resulting trees differ: {diff}")
-        return None
+        # every differing step is a failure of the property; the framework takes one per case: the first whose
+        # signature is not a listed known finding, so that an unlisted divergence is never hidden behind a listed one
+        cands = [(f"{d[1]}-{d[0]}", d) for d in o["diffs"]]
+        pick = next((x for x in cands if f"fs/{x[0]}/{self._cls(c, x[1])}" not in self._known()), cands[0])
+        clause, d = pick
+        return (clause, f"{d[0]} ({d[1]}): remote {str(d[2])[:200]} local {str(d[3])[:200]} "
+                        f"(d {c['d']!r} file {c['file']!r} link {c['link']!r} hard {c['hard']!r} sub {c['sub']!r}; "
+                        f"all differing steps: {[x[0] for x in cands]})")
 
     # ------------------------------------------------------------------ model side
     def _op_term(self, c):
@@ -303,32 +382,8 @@ class C24(Prop):
 
     def signature(self, c, o, clause):
         if c["f"] == "fs":
-            names = c["d"] + c["file"] + c["link"] + c["hard"] + c["sub"]
-            ws = any(ch.isspace() for ch in names)
-            cls = "other"
-            nlname = "\n" in names or "\r" in names
-            if clause == "crash":
-                cls = "hang-whitespace-only-name" if o.get("hang") and any(n.strip(" \n") == "" for n in (c["d"], c["sub"])) \
-                    else "other"
-            elif clause == "result-read":
-                cls = "ws-content" if c["content"].strip() != c["content"] else "cr-content" if "\r" in c["content"] else "other"
-            elif clause == "result-write":
-                cls = "target-is-directory" if c["file"] == c["sub"] else "other"
-            elif clause == "result-checksum":
-                cls = "escaped-name" if any(ch in c["d"] + c["file"] for ch in "\\\n\r") else "other"
-            elif clause == "result-glob":
-                cls = "whitespace-name" if ws else "other"
-            elif clause == "result-walk":
-                rw = next((s[2] for s in o["remote"]["steps"] if s[0] == "walk"), None)
-                lw = next((s[2] for s in o["local"]["steps"] if s[0] == "walk"), None)
-                if isinstance(rw, list) and isinstance(lw, list) and \
-                        [[a, b, [x for x in f if x != c["link"]]] for a, b, f in lw] == rw:
-                    cls = "symlink-omitted"
-                else:
-                    cls = "newline-name" if ("\n" in names or "\r" in names) else "whitespace-name" if ws else "other"
-            elif ws:
-                cls = "whitespace-name"
-            return f"fs/{clause}/{cls}"
+            d = next((d for d in o.get("diffs", []) if f"{d[1]}-{d[0]}" == clause), None)
+            return f"fs/{clause}/{self._cls(c, d) if d else 'other'}"
         return f"{c['f']}/{clause}"
 
     def shrink(self, c):
